@@ -270,6 +270,17 @@ Proof.
   destruct (negb (N.land e 128 =? 0) || negb (N.land e 64 =? 0) && (1 <? N.land e 3)); eexists; reflexivity.
 Qed.
 
+Theorem dec_modkey_total data : (3 <= length data)%nat -> exists r, dec_modkey data = Ok r.
+Proof.
+  intros H. unfold dec_modkey. destruct (mid_ok data 2 1) as [body ->]; [lia|]. cbn [bind].
+  destruct (index_ok data (length data - 1)) as [last Hl]; [lia|].
+  destruct (numbers_decode body 59) as [|code [|p rest]]; try (eexists; reflexivity).
+  destruct (checked_sub1 p) as [mode|]; [|eexists; reflexivity].
+  destruct (255 <? mode); [eexists; reflexivity|]. rewrite Hl. cbn [bind].
+  destruct (if last =? 126 then tilde_key code else if code =? 1 then final_key last else None) as [[k a]|];
+    eexists; reflexivity.
+Qed.
+
 Theorem dec_osc_total data : (4 <= length data)%nat -> exists r, dec_osc data = Ok r.
 Proof.
   intros H. unfold dec_osc.
@@ -719,4 +730,27 @@ Proof.
   intros Hb Hn Hl Hg. unfold dec_mouse. rewrite Hb. cbn [bind]. rewrite Hn.
   destruct (checked_sub1 c); [|reflexivity]. destruct (checked_sub1 r); [|reflexivity].
   rewrite Hl. cbn [bind]. cbv zeta. rewrite mouse_guard, Hg. reflexivity.
+Qed.
+
+(* legacy keys with a modifier parameter (CSI code ; m final): the modifier set is the parameter minus
+   one — a zero parameter or a set above 255 makes the sequence unrecognised, nothing is masked away —
+   and the key is named by the final byte (code 1) or, for `~`, by the code *)
+Theorem dec_modkey_spec data kind arg mode :
+  dec_modkey data = Ok (RSome (PKey kind arg mode)) ->
+  exists body code rest last,
+    mid data 2 1 = Ok body /\ numbers_decode body 59 = code :: (mode + 1) :: rest /\ mode <= 255 /\
+    index data (length data - 1) = Ok last /\
+    (if last =? 126 then tilde_key code else if code =? 1 then final_key last else None) = Some (kind, arg).
+Proof.
+  unfold dec_modkey. destruct (mid data 2 1) as [body| | |]; cbn [bind]; try discriminate.
+  destruct (numbers_decode body 59) as [|code [|p rest]] eqn:En; try discriminate.
+  destruct (checked_sub1 p) as [m|] eqn:Ep; [|discriminate].
+  destruct (N.ltb_spec 255 m) as [|Hm]; [discriminate|].
+  destruct (index data (length data - 1)) as [last| | |]; cbn [bind]; try discriminate.
+  destruct (if last =? 126 then tilde_key code else if code =? 1 then final_key last else None) as [[k a]|] eqn:Ek;
+    [|discriminate].
+  intros H. apply checked_sub1_spec in Ep. subst p.
+  assert (Hland : N.land m 511 = m).
+  { change 511 with (N.ones 9). rewrite N.land_ones. apply N.mod_small. change (2 ^ 9) with 512. lia. }
+  rewrite Hland in H. inversion H; subst. exists body, code, rest, last. repeat split; assumption || reflexivity.
 Qed.
